@@ -153,7 +153,17 @@ fn run_history(env: &Env, h: &History, st: &mut Stats) -> Vec<Violation> {
         if private_tmp {
             std::fs::create_dir_all(&tmpdir).unwrap();
         }
-        let out = e2e::run_solstat_tmp(env, &cwd, &a, if private_tmp { Some(&tmpdir) } else { None });
+        // the child's HOME (and XDG directories) are an empty directory inside the scratch area, so that
+        // anything written "to the user's home" is seen by the snapshot of the whole scratch area
+        let home = sc.path.join("home");
+        std::fs::create_dir_all(&home).unwrap();
+        let mut before_all = Snap::new();
+        snapshot(&sc.path, "", &mut before_all);
+        let mut vars: Vec<(&str, &Path)> = vec![("HOME", &home), ("XDG_CACHE_HOME", &home), ("XDG_CONFIG_HOME", &home), ("XDG_DATA_HOME", &home)];
+        if private_tmp {
+            vars.push(("TMPDIR", &tmpdir));
+        }
+        let out = e2e::run_solstat_env(env, &cwd, &a, &vars);
         st.count("binary_runs");
         st.evaluations += 1;
         if out.code != Some(0) {
@@ -202,6 +212,19 @@ fn run_history(env: &Env, h: &History, st: &mut Stats) -> Vec<Violation> {
             Some((_, bytes)) => bytes,
             None => return vec![Violation::new("history", "no-report", "no solstat_report.md in the working directory after the run", case)],
         };
+        // nothing else anywhere in the scratch area (parents of the tree and of the working directory,
+        // the child's HOME, sibling directories) was created, removed or modified
+        {
+            let mut after_all = Snap::new();
+            snapshot(&sc.path, "", &mut after_all);
+            let rel = report_path.strip_prefix(&sc.path).ok().map(|p| p.to_string_lossy().to_string()).unwrap_or_default();
+            before_all.remove(&rel);
+            after_all.remove(&rel);
+            if before_all != after_all {
+                let changed: Vec<&String> = after_all.keys().filter(|k| before_all.get(*k) != after_all.get(*k)).chain(before_all.keys().filter(|k| !after_all.contains_key(*k))).take(3).collect();
+                return vec![Violation::new("history", "file-outside-working-directory-modified", format!("paths other than the report changed during the run (relative to the scratch area: p/contracts = analysed tree, home = the child's HOME): {:?}", changed), case)];
+            }
+        }
         // overwritten, not appended; stale report without influence
         match reference(&spec, st) {
             Some(r) => {
@@ -257,7 +280,7 @@ pub fn run(env: &Env) -> i32 {
     });
     let meta = Meta {
         rule: "cases = histories of 1-3 runs of the binary: generated tree, working directory in {separate empty directory, parent of ./contracts (default path), the analysed directory itself, a sub-directory of the analysed tree}, pre-existing solstat_report.md in {absent, unrelated text, 1 MiB text, report-like text, a text of exactly the length of the coming report with different content}, directory named by --path or by a configuration file that lives in a third directory (which must stay untouched), optional edit of the tree between runs; oracle = byte snapshots (path -> type, content) of the analysed tree and of the working directory before/after each run are identical except that cwd/solstat_report.md exists afterwards, and its bytes equal the report of a run on the same tree from a fresh working directory; non-trivial = working directory inside or equal to the analysed tree with a stale report present, or >= 2 runs".into(),
-        assumptions: vec!["byte equality with a fresh run relies on the report being deterministic (C13, repaired)".into(), "the scratch area (/dev/shm) is only touched by the harness".into()],
+        assumptions: vec!["byte equality with a fresh run relies on the report being deterministic (C13, repaired)".into(), "the scratch area (/dev/shm) is only touched by the harness".into(), "side effects are observed inside the per-history scratch area (analysed tree, its parent, working directory, configuration directory, the child's HOME / XDG directories and, for every other history, its TMPDIR); writes to absolute paths elsewhere are not observed".into()],
         extra: json!({}),
         floors: vec![
             ("working directory kinds".into(), st.sets.get("cwd_kinds").map(|s| s.len()).unwrap_or(0) as u64, 4),
